@@ -156,6 +156,24 @@ def _build_class():
         ns['_normalize_default_setter_' + n] = (lambda self, doc, n=n: setter(n)(doc))
     for n, f in CHECKS.items():
         ns['_check_with_' + n] = (lambda self, field, value, f=f: f(field, value, self._error))
+    # two custom rules whose constraint schemas come from the two documented docstring forms (docs/customize.rst):
+    # the literal alone, and prose closed by the separator sentence and the literal.  Never part of generated
+    # (well-formed) schemas; C04 plants them with ill-typed constraints.
+    def _validate_is_small(self, constraint, field, value):
+        """{'type': 'boolean'}"""
+        if constraint is True and isinstance(value, int) and value > 100:
+            self._error(field, "too big")
+
+    def _validate_is_even(self, constraint, field, value):
+        """Test the parity of a value.
+
+        The rule's arguments are validated against this schema:
+        {'type': 'boolean'}
+        """
+        if constraint is True and isinstance(value, int) and value % 2:
+            self._error(field, "not even")
+    ns['_validate_is_small'] = _validate_is_small
+    ns['_validate_is_even'] = _validate_is_even
     return type('PoolValidator', (cerberus.Validator,), ns)
 
 
